@@ -353,7 +353,8 @@ class QuotientFilter:
 
     def _add(self, q: int, r: int):
         """Add an quotient into the filter"""
-        if self._size == self._elements_added:
+        # one slot has to stay empty: look-ups, removal and iteration scan for an empty slot to stop
+        if self._elements_added >= self._size - 1:
             raise QuotientFilterError("Unable to insert the element due to insufficient space")
         if self._is_empty_element(q):
             self._filter[q] = r
